@@ -663,3 +663,19 @@ pub fn replay_case(case: &Value, prop: &str) -> Vec<Violation> {
     }
     v1
 }
+
+pub fn run(prop: &'static str, args: vcore::Args) -> i32 {
+    let (tier, replay) = (args.tier, args.replay.as_deref());
+    if let Some(p) = replay {
+        let case = vcore::read_replay_case(p);
+        return crate::replay_report(prop, replay_case(&case, prop));
+    }
+    let mut rep = Report::new(prop, tier, "model_checking");
+    let cfg = cfg_for(prop, tier);
+    rep.rule = "BFS over event histories of the real TransactionManager (begin/write/read/commit/abort/gc), deduplicated on the ledger key; a state is non-trivial/distinct when its ledger key is new".into();
+    explore(&cfg, &mut rep);
+    rep.traces_validated = rep.transitions; // every transition is executed on the real manager
+    rep.assumptions.push("data semantics of reads (which version a read observes) are attached by the harness: last version committed before the reader began, or its own write".into());
+    rep.finish()
+}
+
